@@ -23,19 +23,8 @@ const ruleFuzz = "native go fuzzing of ast.Parse / tick.Format on arbitrary vali
 
 var assumptionsFuzz = []string{
 	"inputs are valid UTF-8, at most 3000 bytes",
-	"inputs in which a '/' is directly followed by a multi-byte rune are skipped (lexer crash class of C05: the lexer goroutine panics, which is fatal to the process)",
 	"programs containing a bare expression statement (a literal, operator expression, lambda or list that is neither declared nor chained) are out of the domain: the statement has no effect and no task script contains one",
 	"known defect classes cannot be avoided by construction on arbitrary inputs: they are recognised on the formatter's output (comment directly after = =~ !~, comment line before a regex line, dbrp name with a double quote, line-break creep) and counted as exclusions",
-}
-
-// slashMultibyte: "/" + multi-byte rune makes the lexer step back too far (C05 finding).
-func slashMultibyte(s string) bool {
-	for i := 0; i+1 < len(s); i++ {
-		if s[i] == '/' && s[i+1] >= 0x80 {
-			return true
-		}
-	}
-	return false
 }
 
 func parseSafe(s string) (n ast.Node, err error) {
@@ -141,7 +130,7 @@ func FuzzFormat(f *testing.F) {
 		return nil
 	})
 	f.Fuzz(func(t *testing.T, s string) {
-		if len(s) > 3000 || !utf8.ValidString(s) || slashMultibyte(s) {
+		if len(s) > 3000 || !utf8.ValidString(s) {
 			return
 		}
 		c := FuzzCase{Script: s}
@@ -179,7 +168,7 @@ func TestFuzzSeeds(t *testing.T) {
 		return nil
 	})
 	for _, s := range seeds {
-		if !utf8.ValidString(s) || slashMultibyte(s) {
+		if !utf8.ValidString(s) {
 			continue
 		}
 		c := FuzzCase{Script: s}
